@@ -125,7 +125,7 @@ def check(pid, tier, seed):
                 st = cases[("LangCode" if l in names_of else "LangName", "_", "CountryCode" if c in country_by_code else "CountryName") + ((".",) if suffix else ())]
                 inputs.append((l + "_" + c + suffix, expected([l, "_", c, ".", "UTF-8"], st), "sample language x table country"))
     # random strings: classified by their first four pieces
-    nrand = {"quick": 1500, "thorough": 40000}[tier]
+    nrand = {"quick": 1500, "thorough": 300000}[tier]
     alphabet = ["_", ".", "en", "GB", "ca", "English", "United Kingdom", "x", "Z", " ", "\xe9", "\x01", "\xff", "a" * 40, "UTF-8"]
     for _ in range(nrand):
         s = "".join(rnd.choice(alphabet) for _ in range(rnd.randrange(0, 9)))
